@@ -19,7 +19,8 @@ ESCAPES = [r"\.", r"\\", r"\n", r"\t", r"\-", r"\$", r"\*", r"\(", r"\[", r"\/",
 # (ranges reaching the last printable character '~' or running past it included; a negated class built
 # from them still leaves ' ' or '!' in the generator's alphabet, so its complement is never empty)
 RANGES = [("a", "f"), ("a", "z"), ("A", "Z"), ("0", "9"), ("0", "5"), ("x", "z"), ("α", "ω"),
-          ("a", "a"), ("!", "~"), ("a", "~"), ("#", "\uffff"), ("{", "~"), ("\"", "}")]
+          ("a", "a"), ("!", "~"), ("a", "~"), ("#", "\uffff"), ("{", "~"), ("\"", "}"),
+          ("\ud800", "\udbff"), ("\udc00", "\udfff"), ("\ud900", "\ue100")]
 UNSUPPORTED = ["lookahead", "neg-lookahead", "lookbehind", "neg-lookbehind", "backref",
                r"\s", r"\S", r"\D", r"\W", "atomic", "possessive*", "possessive+", "possessive?",
                r"[\s]", r"[^\D]", r"[\W]"]
